@@ -390,6 +390,9 @@ func eq(a, b string) string {
 	if a == b {
 		return "true"
 	}
+	if isNonNegLit(a) && isNonNegLit(b) {
+		return "false" // distinct numerals
+	}
 	return "(= " + a + " " + b + ")"
 }
 
